@@ -23,7 +23,7 @@ MUTANTS = [
     ("pipe_ends_swapped_for_stdin", "redirect.c", "*parent = stream == REPROC_STREAM_IN ? pipe[1] : pipe[0];", "*parent = stream == REPROC_STREAM_ERR ? pipe[1] : pipe[0];", "redirect_init", "C10+INV/redirect_init.pipe_parent_holds_other_end"),
     ("destroy_closes_user_handle", "redirect.c", "    case REPROC_REDIRECT_PATH:\n      handle_destroy(child);", "    case REPROC_REDIRECT_PATH:\n    case REPROC_REDIRECT_HANDLE:\n      handle_destroy(child);", "redirect_destroy", "C05/redirect_destroy.never_closes_user_or_parent_streams"),
     ("path_without_cloexec", "redirect.posix.c", "mode | O_CREAT | O_CLOEXEC", "mode | O_CREAT", "redirect_init", "C11/redirect_init.created_descriptors_close_on_exec"),
-    ("pipe_init_leaks_on_cloexec_failure", "pipe.posix.c", "finish:\n  pipe_destroy(pair[0]);\n  pipe_destroy(pair[1]);", "finish:\n  pipe_destroy(pair[0]);", "pipe_init", "C05+INV/pipe_init.failure_leaves_no_descriptor"),
+    ("pipe_init_leaks_on_cloexec_failure", "pipe.posix.c", "finish:\n  pipe_destroy(pair[0]);\n  pipe_destroy(pair[1]);", "finish:\n  pipe_destroy(pair[0]);", "pipe_init", "C05/pipe_init.failure_leaves_no_descriptor"),
     ("pipe_read_empty_request_is_eof", "pipe.posix.c", "if (r == 0 && size > 0) {", "if (r == 0) {", "pipe_read", "C02/pipe_read.epipe_only_at_end_of_stream"),
     ("cloexec_zero_flags_is_error", "handle.posix.c", "  r = fcntl(handle, F_GETFD, 0);\n  if (r < 0) {", "  r = fcntl(handle, F_GETFD, 0);\n  if (r <= 0) {", "handle_cloexec", "C04/handle_cloexec.fails_only_when_the_os_refused"),
     ("pipe_read_eof_as_zero", "pipe.posix.c", "    return -EPIPE;\n  }\n\n  return r < 0 ? -errno : r;", "    return 0;\n  }\n\n  return r < 0 ? -errno : r;", "pipe_read", "C02/pipe_read.eof_is_epipe"),
